@@ -3,6 +3,7 @@ package sim
 import (
 	"bytes"
 	"context"
+	"database/sql"
 	"encoding/json"
 	"fmt"
 	"log/slog"
@@ -103,6 +104,10 @@ type Env struct {
 	AtEnd       func(e *Env) *Violation
 	OnClientEnd func(e *Env, kind string, idx int, err error) *Violation
 	StrictLedger bool
+	saved        [][]byte // database images saved by save_copy steps
+	minSnapshotTXID ltx.TXID // last value returned by DB.EnforceSnapshotRetention
+	AppTrace     []Step   // every application step executed, in order
+	AppTraceRes  []bool   // whether it took effect (result ok)
 }
 
 type AckRec struct {
@@ -137,6 +142,13 @@ func (e *Env) event(format string, args ...any) {
 
 func (e *Env) fail(class, format string, args ...any) *Violation {
 	v := &Violation{Property: e.Prog.Property, Class: class, Msg: e.san(fmt.Sprintf(format, args...)), OpIndex: e.curOp, Facts: map[string]any{}}
+	// decisive run facts, used by known-finding signatures (evaluated on the
+	// minimised program, so only what the violation needs survives)
+	v.Facts["after_runtime_reset"] = e.Res.Probes["reset_since_restart"] > 0
+	v.Facts["after_restart"] = e.Res.Probes["restart"] > 0
+	v.Facts["after_stop_start"] = e.Res.Probes["stop_start"] > 0
+	v.Facts["chunked_sync"] = e.Prog.Cfg.MaxSyncWALBytes > 0
+	v.Facts["min_ckpt"] = e.Prog.Cfg.MinCheckpointPageN
 	return v
 }
 
@@ -395,7 +407,7 @@ func (e *Env) yield(site string) {
 		ip := &op.Interpose[k]
 		if ip.Site == site && ip.Nth == n {
 			for j := range ip.Steps {
-				r := e.App.Do(&ip.Steps[j])
+				r := e.appDo(&ip.Steps[j])
 				e.event("  @%s#%d app %s -> %s", site, n, ip.Steps[j].K, r)
 				if err := e.observe("app"); err != nil && e.Res.Trouble == "" {
 					e.Res.Trouble = err.Error()
@@ -490,7 +502,11 @@ func (e *Env) execOp(op *Op) (string, bool) {
 	ctx := context.Background()
 	switch {
 	case op.Kind == "app":
-		return e.App.Do(op.Step), false
+		if op.Step != nil && op.Step.K == "save_copy" {
+			e.doDownSteps([]Step{*op.Step})
+			return "ok", false
+		}
+		return e.appDo(op.Step), false
 	case op.Kind == "sleep":
 		time.Sleep(time.Duration(op.Ms) * time.Millisecond)
 		return "ok", false
@@ -547,13 +563,21 @@ func (e *Env) execOp(op *Op) (string, bool) {
 		return errStr(err), false
 	case "ls_snap_retention":
 		return errStr(e.LS.Store.EnforceSnapshotRetention(ctx, db)), false
+	case "ls_snap_retention_only":
+		// first half of Store.EnforceSnapshotRetention; the cascade to the lower
+		// levels is issued separately (ls_txid_retention) with the TXID it returned.
+		txid, err := db.EnforceSnapshotRetention(ctx, time.Now().Add(-e.LS.Store.SnapshotRetention))
+		if err == nil {
+			e.minSnapshotTXID = txid
+		}
+		return errStr(err), false
 	case "ls_l0_retention":
 		return errStr(db.EnforceL0RetentionByTime(ctx)), false
 	case "ls_txid_retention":
 		if op.Level < 0 || op.Level >= len(e.LS.Levels) {
 			return "noop:level", false
 		}
-		return errStr(db.EnforceRetentionByTXID(ctx, op.Level, ltx.TXID(op.N))), false
+		return errStr(db.EnforceRetentionByTXID(ctx, op.Level, e.minSnapshotTXID)), false
 	case "ls_close":
 		// A clean shutdown counts as an acknowledged round only if this
 		// instance had started replicating the database (a shutdown before the
@@ -663,6 +687,43 @@ func (e *Env) checkAckC01(opIdx int) *Violation {
 		if sic == "ok" {
 			return e.fail("ack-integrity", "restored database fails integrity_check: %s", ic)
 		}
+	}
+	return nil
+}
+
+// appDo executes an application step and records it for the twin run (C14).
+func (e *Env) appDo(st *Step) string {
+	r := e.App.Do(st)
+	e.AppTrace = append(e.AppTrace, *st)
+	e.AppTraceRes = append(e.AppTraceRes, strings.HasPrefix(r, "ok"))
+	return r
+}
+
+// checkSourceMeta: the source stays in WAL mode and _litestream_lock is empty.
+func (e *Env) checkSourceMeta(copyPath string) *Violation {
+	b, err := os.ReadFile(e.DBPath)
+	if err != nil || len(b) < 100 {
+		return e.fail("source-unreadable", "read source header: %v", err)
+	}
+	if b[18] != 2 || b[19] != 2 {
+		return e.fail("not-wal-mode", "source database header read/write versions are %d/%d, not WAL (2/2)", b[18], b[19])
+	}
+	db, err := sql.Open("sqlite", "file:"+copyPath+"?_pragma=busy_timeout(0)")
+	if err != nil {
+		return nil
+	}
+	defer func() {
+		db.Close()
+		os.Remove(copyPath + "-wal")
+		os.Remove(copyPath + "-shm")
+	}()
+	var n int
+	if err := db.QueryRow("SELECT count(*) FROM _litestream_lock").Scan(&n); err == nil && n != 0 {
+		return e.fail("lock-table-not-empty", "_litestream_lock holds %d rows", n)
+	}
+	var internal int
+	if err := db.QueryRow("SELECT count(*) FROM sqlite_master WHERE name LIKE '\\_litestream\\_%' ESCAPE '\\'").Scan(&internal); err == nil && internal > 2 {
+		return e.fail("extra-internal-objects", "%d _litestream_* objects in the source schema (expected at most 2)", internal)
 	}
 	return nil
 }
